@@ -97,6 +97,27 @@ struct Body {
     fmt: Fmt,
 }
 
+fn smile_with_unknown_member(smile: &[u8], payload: &str) -> Option<Vec<u8>> {
+    use serde::Serialize;
+    use serde_smile::value::Value as S;
+    let mut dom: S = serde_smile::from_slice(smile).ok()?;
+    match &mut dom {
+        S::Object(m) => {
+            let v = match payload {
+                "1" => S::Integer(1),
+                "null" => S::Null,
+                other => S::String(other.to_string()),
+            };
+            m.insert("zzUnknownMember".to_string(), v);
+        }
+        _ => return None,
+    }
+    let mut out = vec![];
+    let mut ser = serde_smile::Serializer::builder().raw_binary(true).build(&mut out);
+    dom.serialize(&mut ser).ok()?;
+    Some(out)
+}
+
 fn make_body(r: &mut Rng, ep: &Ep, d: &str, smile_bytes: &[u8]) -> Body {
     let fmt = if r.chance(1, 4) { Fmt::Smile } else { Fmt::Json };
     let base: Vec<u8> = if fmt == Fmt::Json { d.as_bytes().to_vec() } else { smile_bytes.to_vec() };
@@ -140,6 +161,14 @@ fn make_body(r: &mut Rng, ep: &Ep, d: &str, smile_bytes: &[u8]) -> Body {
             t.pop();
             let sep = if t.trim_end().ends_with('{') { "" } else { "," };
             (format!("{}{}\"zzUnknownMember\":{}}}", t, sep, r.pick(&["1", "null", "{\"a\":[]}", "\"x\""])).into_bytes(), "unknown-member", Some(false))
+        }
+        11 if fmt == Fmt::Smile && ep.shape == Shape::Obj => {
+            // the same through the Smile DOM (plain serde_smile re-encodes it faithfully): an undeclared member
+            // appended to the top-level object; judged only if the DOM round trip worked
+            match smile_with_unknown_member(&base, *r.pick(&["1", "null", "x"])) {
+                Some(b) => (b, "unknown-member", Some(false)),
+                None => (base.clone(), "exact", Some(true)),
+            }
         }
         12 if fmt == Fmt::Json => {
             let wrong = match ep.shape {
